@@ -93,7 +93,7 @@ def exec_hist(c):
             with warnings.catch_warnings():
                 warnings.simplefilter("ignore")
                 if a == "from_swc":
-                    pop = Population.from_swc(roots[act["r"] - 1])
+                    pop = Population.from_swc(roots[act["r"] - 1] + (os.sep if len(steps) % 3 == 1 else ""))
                     objs += [pop.trees, pop]
                     act["order"] = [ident(p)[1] for p in pop.trees.swcs]
                     res = ["obj", len(pop)]
@@ -126,7 +126,7 @@ def exec_hist(c):
                 elif a == "len":
                     res = ["len", len(objs[act["o"] - 1])]
                 elif a == "zip":
-                    zs = Populations.from_swc([roots[r - 1] for r in act["roots"]])
+                    zs = Populations.from_swc([roots[r - 1] + (os.sep if (r + len(steps)) % 2 else "") for r in act["roots"]])     # (a directory may be named with or without a trailing separator)
                     for p in zs.populations:
                         objs += [p.trees, p]
                     objs.append(zs)
